@@ -861,22 +861,23 @@ class Exec:
                 raise Unsupported(f"for loop line {s.lineno}: temporary read before it is assigned in the iteration (loop-carried)")
             if isinstance(st_.targets[0], ast.Name):
                 seen_.add(st_.targets[0].id)
-        if len(tnames) != 1:
-            raise Unsupported("map loop writes several arrays")
-        tname = tnames.pop()
-        pos = set()
-        for node in ast.walk(ast.Module(body=list(s.body), type_ignores=[])):
-            if isinstance(node, ast.Subscript) and isinstance(node.value, ast.Name) and node.value.id == tname:
-                elts = node.slice.elts if isinstance(node.slice, ast.Tuple) else [node.slice]
-                where = [k_ for k_, e_ in enumerate(elts) if isinstance(e_, ast.Name) and e_.id == jname]
-                if len(where) != 1:
-                    raise Unsupported("map loop: row access without the loop index (iterations not independent)")
-                lead = 1 if (isinstance(elts[0], ast.Constant) and elts[0].value is Ellipsis) else 0
-                pos.add((where[0] - lead, lead))
-        if len(pos) != 1:
-            raise Unsupported("map loop: loop index at different axes")
-        (jpos, lead), = pos
-        before = env[tname]
+        body_mod = ast.Module(body=list(s.body), type_ignores=[])
+        info = {}
+        for tname in sorted(tnames):
+            pos = set()
+            nfix = None
+            for node in ast.walk(body_mod):
+                if isinstance(node, ast.Subscript) and isinstance(node.value, ast.Name) and node.value.id == tname:
+                    elts = node.slice.elts if isinstance(node.slice, ast.Tuple) else [node.slice]
+                    where = [k_ for k_, e_ in enumerate(elts) if isinstance(e_, ast.Name) and e_.id == jname]
+                    if len(where) != 1:
+                        raise Unsupported("map loop: row access without the loop index (iterations not independent)")
+                    lead = 1 if (isinstance(elts[0], ast.Constant) and elts[0].value is Ellipsis) else 0
+                    pos.add((where[0] - lead, lead))
+                    nfix = len(elts) - 1
+            if len(pos) != 1:
+                raise Unsupported("map loop: loop index at different axes")
+            info[tname] = (pos.pop(), nfix)
         j = self.new_int("j")
         env2 = dict(env)
         env2[jname] = j
@@ -888,26 +889,17 @@ class Exec:
         if body_outs or len(ends) != 1:
             raise Unsupported("map loop body forks or returns")
         (pend, eafter), = ends
-        after = eafter[tname]
-        # axis of j in the target
-        if lead:
-            nfix = None
-            for node in ast.walk(ast.Module(body=list(s.body), type_ignores=[])):
-                if isinstance(node, ast.Subscript) and isinstance(node.value, ast.Name) and node.value.id == tname:
-                    elts = node.slice.elts if isinstance(node.slice, ast.Tuple) else [node.slice]
-                    nfix = len(elts) - 1
-                    break
-            ax = before.ndim - nfix + jpos
-        else:
-            ax = jpos
-        # side facts produced inside the body hold for every j: generalise them
         extra = pend.entries[len(p2.entries):]
+        for tname, ((jpos, lead), nfix) in info.items():
+            before = env[tname]
+            after = eafter[tname]
+            ax = (before.ndim - nfix + jpos) if lead else jpos
 
-        def elem(*idx):
-            v = after.elem(*idx)
-            jj = toI(idx[ax])
-            return subst_scalar(v, j, jj)
-        env[tname] = T(after.axes, elem, kind=after.kind)
+            def elem(*idx, after=after, ax=ax):
+                v = after.elem(*idx)
+                return subst_scalar(v, j, toI(idx[ax]))
+            env[tname] = T(after.axes, elem, kind=after.kind)
+        self.map_last = {"j": j, "n": n, "path": pend, "env": eafter}
         self.map_facts = getattr(self, "map_facts", [])
         self.map_facts.append((j, n, [f for f, _ in extra]))
         return
